@@ -21,7 +21,7 @@ Custom == { Id(<<"f">>, "length"), Id(<<"my">>, "func"), Id(<<"x", "y">>, "now")
             Id(<<"g">>, "distance"), Id(<<"ge">>, "length"), Id(<<"eo">>, "intersects"), Id(<<"o">>, "trim"), Id(<<"geog">>, "length"),
             Id(<<"ns">>, "größe"), Id(<<"maß">>, "norm") }
 Names == BuiltinNames \cup NearMiss \cup Custom
-Styles == {"lit", "call", "list", "path", "mixed", "named", "namedrev", "uniid"}
+Styles == {"lit", "call", "list", "path", "mixed", "named", "namedrev", "uniid", "samelit", "altlit"}
 
 ArgOf(s, i) == CASE s = "lit"  -> IntL(i)
                  [] s = "call" -> Call(Id0("tolower"), <<StrL(<<96 + i>>)>>)
@@ -32,6 +32,9 @@ ArgOf(s, i) == CASE s = "lit"  -> IntL(i)
                  [] s = "named" -> Named(Id0(CASE i = 1 -> "p" [] i = 2 -> "q" [] i = 3 -> "r" [] i = 4 -> "s" [] OTHER -> "t"), IntL(i))
                  \* named parameters whose names are NOT in alphabetical order, and identifiers with non-ASCII letters
                  [] s = "namedrev" -> Named(Id0(CASE i = 1 -> "t" [] i = 2 -> "beta" [] i = 3 -> "r" [] i = 4 -> "alpha" [] OTHER -> "a"), IntL(i))
+                 \* equal literal arguments: each one counts
+                 [] s = "samelit" -> StrL(<<97, 98>>)
+                 [] s = "altlit" -> IntL(1 + (i % 2))
                  [] s = "uniid" -> Id0(IF i % 2 = 1 THEN "naïve" ELSE "café")
 TheCall == Call(f, [i \in 1..n |-> ArgOf(style, i)])
 InCtx(c) == CASE ctxt = "alone" -> c
